@@ -47,7 +47,7 @@ def run(pid, tier, seed):
         tp = os.path.join(tdir, "%s-%s-scopes-%d-%d.ndjson" % (pid, tier, seed, k))
         vlib.record_trace(sc, ["record", "--seed", seed * 90 + k, "--runs", 3 if q else 8, "--len", 100 if q else 250,
                                "--names", 5, "--types", 3], tp, timeout=1800)
-        jobs.append(("IprScopesTrace", tp, ["ScInvariant"], lambda ev: ev.get("k") == "reset", {"NNames": 5, "NT": 3}))
+        jobs.append(("IprScopesTrace", tp, ["ScInvariant"], lambda ev: ev.get("k") == "reset", {"NNames": 5, "NT": 3, "WithSpec": "TRUE"}))
     tp = os.path.join(tdir, "%s-%s-strings-%d.ndjson" % (pid, tier, seed))
     vlib.record_trace(stx, ["record", "--seed", seed + 3, "--n", 600 if q else 3000], tp, timeout=1800)
     jobs.append(("IprStringsTrace", tp, ["StInvariant"], lambda ev: ev.get("e") == "reset", {"Known": "<- KnownWords", "NLex": 2}))
